@@ -14,6 +14,7 @@ import (
 	"container/list"
 	"context"
 	"fmt"
+	"sort"
 	"sync"
 
 	"github.com/ipfs/go-cid"
@@ -181,8 +182,7 @@ func (db *DB) newMergeProcessor(
 }
 
 type mergeTarget struct {
-	heads      map[cid.Cid]*coreblock.Block
-	headHeight uint64
+	heads map[cid.Cid]*coreblock.Block
 }
 
 func newMergeTarget() mergeTarget {
@@ -191,58 +191,123 @@ func newMergeTarget() mergeTarget {
 	}
 }
 
+// mergedSet answers whether a composite block has already been merged, i.e. whether it is
+// one of the current heads or an ancestor of one of them.
+//
+// The heads of a document can have different heights, so the known set is grown lazily by
+// walking back from the heads: a block of height h can only be a parent of blocks that are
+// higher than h, therefore expanding every known block above h is enough to decide membership
+// of a block of height h. The set only ever grows and every block is expanded at most once.
+type mergedSet struct {
+	mp       *mergeProcessor
+	known    map[cid.Cid]struct{}
+	frontier map[cid.Cid]*coreblock.Block
+}
+
+func newMergedSet(mp *mergeProcessor, mt mergeTarget) *mergedSet {
+	ms := &mergedSet{
+		mp:       mp,
+		known:    make(map[cid.Cid]struct{}, len(mt.heads)),
+		frontier: make(map[cid.Cid]*coreblock.Block, len(mt.heads)),
+	}
+	for c, b := range mt.heads {
+		ms.known[c] = struct{}{}
+		ms.frontier[c] = b
+	}
+	return ms
+}
+
+func (ms *mergedSet) contains(ctx context.Context, c cid.Cid, height uint64) (bool, error) {
+	for {
+		expanded := false
+		for fc, fb := range ms.frontier {
+			if fb.Delta.GetPriority() <= height {
+				continue
+			}
+			delete(ms.frontier, fc)
+			expanded = true
+			for _, link := range fb.Heads {
+				if _, ok := ms.known[link.Cid]; ok {
+					continue
+				}
+				parent, err := ms.mp.loadBlock(ctx, link.Cid)
+				if err != nil {
+					return false, err
+				}
+				ms.known[link.Cid] = struct{}{}
+				ms.frontier[link.Cid] = parent
+			}
+		}
+		if !expanded {
+			break
+		}
+	}
+	_, ok := ms.known[c]
+	return ok, nil
+}
+
+func (mp *mergeProcessor) loadBlock(ctx context.Context, c cid.Cid) (*coreblock.Block, error) {
+	nd, err := mp.blockLS.Load(linking.LinkContext{Ctx: ctx}, cidlink.Link{Cid: c}, coreblock.BlockSchemaPrototype)
+	if err != nil {
+		return nil, err
+	}
+	return coreblock.GetFromNode(nd)
+}
+
 // loadComposites retrieves and stores into the merge processor the composite blocks for the given
-// CID until it reaches a block that has already been merged or until we reach the genesis block.
+// CID that have not been merged yet: it walks back from the block until it reaches blocks that are
+// already part of the local DAG (the merge target and its ancestors) or the genesis block.
+//
+// Every block is collected exactly once, also when it is reachable through several paths, and the
+// collected blocks are ordered by height so that a block is always merged after its parents.
 func (mp *mergeProcessor) loadComposites(
 	ctx context.Context,
 	blockCid cid.Cid,
 	mt mergeTarget,
 ) error {
-	if _, ok := mt.heads[blockCid]; ok {
-		// We've already processed this block.
-		return nil
-	}
+	merged := newMergedSet(mp, mt)
+	visited := make(map[cid.Cid]struct{})
+	pending := make([]*coreblock.Block, 0)
 
-	nd, err := mp.blockLS.Load(linking.LinkContext{Ctx: ctx}, cidlink.Link{Cid: blockCid}, coreblock.BlockSchemaPrototype)
-	if err != nil {
-		return err
-	}
+	var walk func(c cid.Cid) error
+	walk = func(c cid.Cid) error {
+		if _, ok := visited[c]; ok {
+			return nil
+		}
+		visited[c] = struct{}{}
 
-	block, err := coreblock.GetFromNode(nd)
-	if err != nil {
-		return err
-	}
+		block, err := mp.loadBlock(ctx, c)
+		if err != nil {
+			return err
+		}
 
-	// In the simplest case, the new block or its children will link to the current head/heads (merge target)
-	// of the composite DAG. However, the new block and its children might have branched off from an older block.
-	// In this case, we also need to walk back the merge target's DAG until we reach a common block.
-	if block.Delta.GetPriority() >= mt.headHeight {
-		mp.composites.PushFront(block)
+		isMerged, err := merged.contains(ctx, c, block.Delta.GetPriority())
+		if err != nil {
+			return err
+		}
+		if isMerged {
+			// We've already processed this block (and therefore all of its ancestors).
+			return nil
+		}
+
+		pending = append(pending, block)
 		for _, head := range block.Heads {
-			err := mp.loadComposites(ctx, head.Cid, mt)
-			if err != nil {
+			if err := walk(head.Cid); err != nil {
 				return err
 			}
 		}
-	} else {
-		newMT := newMergeTarget()
-		for _, b := range mt.heads {
-			for _, link := range b.Heads {
-				nd, err := mp.blockLS.Load(linking.LinkContext{Ctx: ctx}, link, coreblock.BlockSchemaPrototype)
-				if err != nil {
-					return err
-				}
+		return nil
+	}
 
-				childBlock, err := coreblock.GetFromNode(nd)
-				if err != nil {
-					return err
-				}
+	if err := walk(blockCid); err != nil {
+		return err
+	}
 
-				newMT.heads[link.Cid] = childBlock
-				newMT.headHeight = childBlock.Delta.GetPriority()
-			}
-		}
-		return mp.loadComposites(ctx, blockCid, newMT)
+	sort.SliceStable(pending, func(i, j int) bool {
+		return pending[i].Delta.GetPriority() < pending[j].Delta.GetPriority()
+	})
+	for _, block := range pending {
+		mp.composites.PushBack(block)
 	}
 	return nil
 }
@@ -544,8 +609,6 @@ func getHeadsAsMergeTarget(ctx context.Context, key keys.HeadstoreKey) (mergeTar
 		}
 
 		mt.heads[cid] = block
-		// All heads have the same height so overwriting is ok.
-		mt.headHeight = block.Delta.GetPriority()
 	}
 	return mt, nil
 }
